@@ -5,8 +5,13 @@ import hashlib, json, os, subprocess, sys, time
 from . import build
 from .build import VERIF
 
-EVID = os.path.join(VERIF, "evidence")
-REPLAYS = os.path.join(VERIF, "replays")
+# evidence/ and replays/ describe /repo's current tree; runs against another tree (VERIF_REPO=...) or with XV_SCRATCH=1 (a seeded change
+# temporarily applied to /repo, a candidate fix) write theirs under build/alt/<key>/ instead
+_ALT = None
+if os.environ.get("XV_SCRATCH") or os.path.realpath(os.environ.get("VERIF_REPO", "/repo")) != "/repo":
+    _ALT = os.path.join(VERIF, "build", "alt", os.environ.get("XV_SCRATCH") or hashlib.sha1(os.environ["VERIF_REPO"].encode()).hexdigest()[:8])
+EVID = os.path.join(_ALT or VERIF, "evidence")
+REPLAYS = os.path.join(_ALT or VERIF, "replays")
 KF_FILE = os.path.join(VERIF, "known_findings.json")
 
 
